@@ -162,6 +162,11 @@ def key_lookup(ctx, facts):
     for bb, t in k.calls():
         if (F.callee(t)[0] or "").endswith("Index::index") or re.search(r"<impl \[T\]>::get$", F.callee(t)[0] or ""):
             idx_ok = idx_ok or "('arg', 2)" in str(flow.expr_of(k, t["args"][1]))
+    if not ok:
+        # `self.keys.get(usize::from(key_id))`: the library's bounds-checked lookup is the same function
+        r_ = flow.strip_casts(flow.expr_of(k, {"cp": [0]}, max_depth=10))
+        if r_[0] == "call" and re.search(r"(<impl \[T\]>|Vec::<T, A>)::get$", r_[1]) and "keys" in str(r_[2][0]) and flow.strip_casts(r_[2][1]) in (("arg", 2), ("call", "std::convert::From::from", (("arg", 2),))) and not somes:
+            ok = idx_ok = True
     ctx.ob("KEY-lookup", "KeyRegistry::key:indexed-by-id", ok and idx_ok, "Some(&keys[id]) iff id < len" if ok and idx_ok else "KeyRegistry::key does not return exactly the key stored at the requested index (or returns Some outside id < len)", site_of(k))
 
 
@@ -208,7 +213,18 @@ def bind(ctx, facts):
         if pk:
             e = str(flow.expr_of(b, pk[0][1]["args"][1]))
             okk = "key_id" in e
-            okm = any(s["r"]["k"] == "agg" and s["r"].get("vn") == "NoSuchKey" for _, _, s in b.iter_assigns()) and flow.question_mark(b, _ok_or_dest(b, pk[0][1]["d"][0])) is not None
+            has_err = any(s["r"]["k"] == "agg" and s["r"].get("vn") == "NoSuchKey" for _, _, s in b.iter_assigns())
+            okm = has_err and flow.question_mark(b, _ok_or_dest(b, pk[0][1]["d"][0])) is not None
+            if has_err and not okm:
+                # `let Some(sk) = registry.private_key(id) else { return Err(NoSuchKey(id).into()) }`: on the None arm of the
+                # lookup no successful return is reachable, and the error is built there
+                from rules.C17 import variant_arms
+                oks_ = set(malsec.ok_blocks(b))
+                for sw_, pl_, arms_ in variant_arms(b, "std::option::Option", facts):
+                    if "private_key" in str(flow.expr_of(b, {"cp": pl_}, max_depth=6)) and "None" in arms_ and arms_.get("Some") != arms_["None"]:
+                        none_reach = b.reachable(arms_["None"])
+                        errs_here = any(s_["r"]["k"] == "agg" and s_["r"].get("vn") == "NoSuchKey" and bb_ in none_reach for bb_, _, s_ in b.iter_assigns())
+                        okm = errs_here and not (oks_ & none_reach)
             ctx.ob("BIND", f"{kind}:missing-key-is-error", okm, "an unknown key id yields Err(NoSuchKey)" if okm else "a missing key does not produce an error", site_of(b, pk[0][0]))
         ctx.ob("BIND", f"{kind}:key-by-record-key-id", okk, "the private key is selected by the record's key id", site_of(b))
 
